@@ -745,6 +745,10 @@ class AIterHandNext(AIterCls):
     __slots__ = ()
 
     def __anext__(self):
+        # the read is asked for here, at call time (as with an iterator that starts an I/O request and hands back its
+        # future): asking while another read of this source is in flight is a second user inside the source
+        if self.src.in_flight:
+            self.src.overlaps += 1
         return _NextAwaitable(self)
 
 
